@@ -169,6 +169,22 @@ func runC10Race(c *core.Ctx) {
 						privErr.Store(fmt.Errorf("register failed: %v", err))
 					}
 					local = append(local, porcupine.Operation{ClientId: w, Input: regIn{ki, true, size}, Call: call, Output: 0, Return: ret})
+					// calls that register nothing (size 0, refused sizes and CIDs) go through the same
+					// function; they use CIDs no recorded operation reads
+					if rr.Chance(1, 3) {
+						switch rr.Intn(3) {
+						case 0:
+							lorawan.RegisterProprietaryMACCommand(rr.Bool(), lorawan.CID(0xE8+rr.Intn(2)), 0)
+						case 1:
+							if lorawan.RegisterProprietaryMACCommand(rr.Bool(), lorawan.CID(0xE8), -1-rr.Intn(3)) == nil {
+								privErr.Store(fmt.Errorf("negative size registered"))
+							}
+						default:
+							if lorawan.RegisterProprietaryMACCommand(rr.Bool(), lorawan.CID(rr.Intn(128)), 2) == nil {
+								privErr.Store(fmt.Errorf("non-proprietary CID registered"))
+							}
+						}
+					}
 					if rr.Chance(1, 2) {
 						runtime.Gosched()
 					}
@@ -213,6 +229,33 @@ func runC10Race(c *core.Ctx) {
 					privErr.Store(err)
 				}
 			}(c.RNG("race-private", h*1000+int64(p)))
+		}
+		// distinct frame values that started life as copies of one decoded template
+		// (var a, b = tmpl, tmpl) are decoded into concurrently
+		var tmpl lorawan.PHYPayload
+		if tmpl.UnmarshalBinary(validFrameBytes(r, 2+r.Intn(4))) == nil {
+			for p := 0; p < 3; p++ {
+				wg.Add(1)
+				go func(v lorawan.PHYPayload, rr *core.RNG) {
+					defer wg.Done()
+					<-start
+					for i := 0; i < 8; i++ {
+						wire := validFrameBytes(rr, 2+rr.Intn(4))
+						if err := v.UnmarshalBinary(wire); err != nil {
+							privErr.Store(fmt.Errorf("valid frame %x refused: %v", wire, err))
+							return
+						}
+						if back, err := v.MarshalBinary(); err != nil || !bytes.Equal(back, wire) {
+							privErr.Store(fmt.Errorf("frame decoded into a copy of a template re-encodes to %x (err %v), was %x", back, err, wire))
+							return
+						}
+						atomic.AddInt64(&privOps, 2)
+						if i%2 == 0 {
+							runtime.Gosched()
+						}
+					}
+				}(tmpl, c.RNG("race-template", h*10+int64(p)))
+			}
 		}
 		close(start)
 		wg.Wait()
